@@ -140,6 +140,53 @@ Agree(nat, leg) ==
   \/ ~nat.ok /\ ~leg.ok
   \/ nat.ok /\ ~leg.ok /\ PermittedLegacyFailure(leg)
 
+(* ---- the raw condition listing of get_coinspends_with_conditions_for_trusted_block (run_block_generator.rs:432) ---- *)
+(* Per spend, the puzzle output is walked with lax list termination. A condition is listed when it is a pair whose     *)
+(* first element is a "small number" (clvmr small_number: canonical, non-negative, below 2^26); its arguments are the  *)
+(* first six ATOMS among its remaining elements (pairs are passed over and do not count); a condition with an          *)
+(* argument atom of 1024 bytes or more among those examined is dropped as a whole; once 1024 conditions of a spend     *)
+(* are listed only AGG_SIG_* and CREATE_COIN are still added.                                                          *)
+SmallNumber(x) ==
+  IF ~IsAtom(x) THEN [ok |-> FALSE, v |-> 0]
+  ELSE LET b == x.a  n == Len(x.a) IN
+       IF n = 0 THEN [ok |-> TRUE, v |-> 0]
+       ELSE IF n > 4 \/ (n = 1 /\ b[1] = 0) \/ b[1] >= 128 \/ (n >= 2 /\ b[1] = 0 /\ b[2] < 128) \/ (n = 4 /\ b[1] > 3)
+            THEN [ok |-> FALSE, v |-> 0]
+            ELSE [ok |-> TRUE, v |-> ToInt(b)]
+ListingMaxArgs == 6
+ListingMaxAtom == 1024
+ListingSoftCap == 1024
+ListingHighPriority(op) == op \in 43..51
+RECURSIVE ListingArgs(_, _)
+ListingArgs(items, acc) ==
+  IF items = <<>> \/ Len(acc) = ListingMaxArgs THEN [ok |-> TRUE, args |-> acc]
+  ELSE IF IsAtom(Head(items))
+       THEN (IF Len(Head(items).a) >= ListingMaxAtom THEN [ok |-> FALSE, args |-> <<>>]
+             ELSE ListingArgs(Tail(items), Append(acc, Head(items).a)))
+       ELSE ListingArgs(Tail(items), acc)
+ListingEntry(c) ==
+  IF IsAtom(c) THEN [keep |-> FALSE, op |-> 0, args |-> <<>>]
+  ELSE LET o == SmallNumber(c.l)
+           a == ListingArgs(Elems(c.r), <<>>)
+       IN [keep |-> o.ok /\ a.ok, op |-> o.v, args |-> a.args]
+RECURSIVE ListingFold(_, _)
+ListingFold(items, acc) ==
+  IF items = <<>> THEN acc
+  ELSE LET e == ListingEntry(Head(items))
+       IN ListingFold(Tail(items),
+            IF e.keep /\ (Len(acc) < ListingSoftCap \/ ListingHighPriority(e.op)) THEN Append(acc, [op |-> e.op, args |-> e.args]) ELSE acc)
+ListingOfConds(res) == ListingFold(Elems(res), <<>>)
+
+\* what the listing must have in common with full validation on an accepted block: every created coin of a spend is
+\* listed, and nothing else is listed under CREATE_COIN. (No such clause holds for AGG_SIG_*: validation admits signature
+\* messages of up to 1024 bytes INCLUSIVE while the listing drops a condition with an argument of 1024 bytes or more, so
+\* an accepted AGG_SIG_ME with a 1024-byte message is absent from the listing - recorded as an observation, DESIGN 9.7 X10.)
+ListingCoins(L) == {<<L[j].args[1], Norm(L[j].args[2])>> : j \in {k \in DOMAIN L : L[k].op = 51 /\ Len(L[k].args) >= 2}}
+ListingCount(L, op) == Cardinality({k \in DOMAIN L : L[k].op = op})
+ListingCoversValidated(L, sp) ==
+  /\ ListingCoins(L) = {<<c.ph, c.amt>> : c \in sp.cc}
+  /\ ListingCount(L, 51) = Cardinality(sp.cc)
+
 (* ---- C09: the trusted view of an accepted block ---- *)
 HintOf(c) == HintObs(c.hint)
 \* additions: every CREATE_COIN of every spend, as (coin, hint), with the hint rule of validation
